@@ -91,3 +91,33 @@ Definition tie_show (c : tie_case) :=
       | _, _ => None
       end
   end.
+
+(** ** values: the valued executor of [Plan/Values.v] on the implementation's
+    own action list, with formulas  base + sum of calls *)
+From Coq Require Import ZArith.
+From MX Require Import Plan.Values.
+
+Definition akind_of_code (c : nat) : akind := match c with 0 => ACalc | 1 => APaste | _ => AClear end.
+
+Definition pairZ_eqb (a b : nat * Z) : bool := Nat.eqb (fst a) (fst b) && Z.eqb (snd a) (snd b).
+
+(** graph, initial (node, (code, value)), bases, implementation's actions,
+    implementation's final (code, value) per node, direct values of the targets *)
+Definition vtie_case :=
+  (dag * list (nat * (nat * Z)) * list (nat * Z) * list (nat * list nat) * list (nat * Z) * list (nat * Z))%type.
+
+Definition vtie_check (c : vtie_case) : bool :=
+  match c with
+  | (g, init, bases, iacts, ifinal, idirect) =>
+      let fn := sum_formula bases in
+      let fuel := List.length g + 2 in
+      let x0 := mkvxs (lookup_init init) [] in
+      match vexecute g fn fuel (map (fun a => (akind_of_code (fst a), snd a)) iacts) x0 with
+      | OutOfFuel => false
+      | Ok x => list_eqb pairZ_eqb (vsnapshot g (vcache x)) ifinal
+      end
+      && forallb (fun tv => match veval g fn fuel (fst tv) x0 with
+                            | Ok (_, v) => Z.eqb v (snd tv)
+                            | OutOfFuel => false
+                            end) idirect
+  end.
